@@ -105,7 +105,9 @@ class G:
             s = (s.strip() or "a") + "\n" + "b\nc"
         elif k == 4:
             # the markup the game's message strings carry: [K], [hero], [CS:G]..[CR], [VS:1:2], unbalanced brackets
-            tags = ["[K]", "[C]", "[hero]", "[CS:G]", "[CR]", "[VS:1:2]", "[M:D1]", "[", "]", "[:", "[a b:c]", "[CN]", "[FT:0]"]
+            tags = ["[K]", "[C]", "[hero]", "[CS:G]", "[CR]", "[VS:1:2]", "[M:D1]", "[", "]", "[:", "[a b:c]", "[CN]", "[FT:0]",
+                    # text that is not in Unicode normal form (a base letter + combining mark, Hangul jamo)
+                    "e\u0301", "\u1100\u1161", "a\u0308\u0323"]
             at = self.i(0, len(s))
             s = s[:at] + self.pick(tags) + s[at:] + (self.pick(tags) if self.b() else "")
         return s
